@@ -548,22 +548,32 @@ Proof.
   rewrite firstn_all. reflexivity.
 Qed.
 
+Ltac step_IH IH :=
+  match goal with |- exists o idle', for_count _ ?i _ (?a, ?e) {| d_vd := ?v1; d_idle := false |} = _ /\ _ /\ _ =>
+    let o := fresh "o" in let i' := fresh "idl" in let E := fresh "E" in let R := fresh "R" in let I := fresh "I" in
+    destruct (IH i a e v1 false) as (o & i' & E & R & I);
+    exists o, i'; split; [exact E|split; [exact R|
+      intros N1 N2; rewrite (I N1 N2);
+      match goal with |- match ?n with O => _ | S _ => _ end = _ => destruct n; reflexivity end]]
+  end.
+
 Lemma get_loop c addr : 0 <= addr < 65536 -> forall n i a0 e0 v idle,
   exists o idle',
     for_count n i (get_body c addr) (a0, e0) (mkD v idle)
     = (o, mkD (snd (ve_command_get_loop n c idle addr v)) idle')
-    /\ loop_rel o (fst (ve_command_get_loop n c idle addr v)).
+    /\ loop_rel o (fst (ve_command_get_loop n c idle addr v))
+    /\ (o <> DPanic -> o <> DFuel -> idle' = match n with O => idle | S _ => false end).
 Proof.
   intros Ha. induction n as [|n IH]; intros i a0 e0 v idle.
   - cbn [for_count ve_command_get_loop fst snd]. exists (DVal (LDone (a0, e0))), idle. split; [reflexivity|].
-    right. split; [reflexivity|]. eexists. reflexivity.
+    split; [|reflexivity]. right. split; [reflexivity|]. eexists. reflexivity.
   - cbn [for_count ve_command_get_loop]. unfold get_body at 1. cbv zeta. unfold bind at 1. unfold bind at 1.
     destruct (go_VeCommand_spec c 7 addr v idle ltac:(lia) Ha) as (o1 & E1 & R1). rewrite E1.
     destruct (ve_command c idle 7 addr v) as [r1 v1]. cbn [fst snd] in *.
     destruct r1 as [raw|e1| |]; cbn [res_rel] in R1.
     + subst o1. cbn [gerr_isnil negb].
       destruct raw as [|lo [|hi [|flag val]]];
-        try (change (g_len _ <? 3) with true; cbv iota; unfold ret at 1; cbn [classify_get]; apply IH).
+        try (change (g_len _ <? 3) with true; cbv iota; unfold ret at 1; cbn [classify_get]; step_IH IH).
       replace (g_len (lo :: hi :: flag :: val) <? 3) with false
         by (symmetry; apply Z.ltb_ge; unfold g_len; cbn [List.length]; lia).
       unfold bind at 1. rewrite g_slice_02. unfold bind at 1. rewrite go_littleEndianBytesToUint_spec.
@@ -572,35 +582,37 @@ Proof.
       rewrite (wrapU_small 16) by (change (2 ^ 16) with 65536; lia).
       cbn [classify_get].
       destruct (negb (addr =? bz lo + 256 * bz hi)).
-      { unfold ret at 1. apply IH. }
+      { unfold ret at 1. step_IH IH. }
       unfold bind at 1. rewrite g_slice_23. unfold bind at 1. rewrite go_littleEndianBytesToUint_spec.
       replace (le_uint [flag]) with (bz flag) by (unfold le_uint; cbn [firstn le_val]; lia).
       rewrite bz_wrapU8. unfold bind at 1. rewrite go_responseError_spec.
       destruct (response_error (bz flag)) as [e|]; cbn [gerr_isnil negb].
-      * eexists. eexists. split; [reflexivity|]. left. eexists. reflexivity.
-      * unfold bind at 1. rewrite g_slice_3. eexists. eexists. split; [reflexivity|]. reflexivity.
-    + destruct R1 as (a & ->). cbn [gerr_isnil negb]. unfold ret at 1. apply IH.
-    + subst o1. eexists. eexists. split; reflexivity.
-    + subst o1. eexists. eexists. split; reflexivity.
+      * eexists. eexists. split; [reflexivity|]. split; [|intros; reflexivity]. left. eexists. reflexivity.
+      * unfold bind at 1. rewrite g_slice_3. eexists. eexists. split; [reflexivity|]. split; [reflexivity|intros; reflexivity].
+    + destruct R1 as (a & ->). cbn [gerr_isnil negb]. unfold ret at 1. step_IH IH.
+    + subst o1. eexists. eexists. split; [reflexivity|]. split; [reflexivity|]. intros N; exfalso; apply N; reflexivity.
+    + subst o1. eexists. eexists. split; [reflexivity|]. split; [reflexivity|]. intros _ N; exfalso; apply N; reflexivity.
 Qed.
 
 Theorem go_VeCommandGet_spec c addr v idle : 0 <= addr < 65536 ->
   exists o idle', go_VeCommandGet c addr (mkD v idle) = (o, mkD (snd (ve_command_get c idle addr v)) idle')
-            /\ res_rel o (fst (ve_command_get c idle addr v)).
+            /\ res_rel o (fst (ve_command_get c idle addr v))
+            /\ (o <> DPanic -> o <> DFuel -> idle' = false).
 Proof.
   intros Ha. unfold go_VeCommandGet, ve_command_get, num_tries. cbv zeta.
   rewrite (Z.mod_small addr 65536) by lia.
   unfold bind at 1.
   match goal with |- context[for_count 8 0 ?b _ _] => change b with (get_body c addr) end.
-  destruct (get_loop c addr Ha 8 0 [] None v idle) as (o & idle' & E & R). cbv [gerr] in E |- *. rewrite E.
+  destruct (get_loop c addr Ha 8 0 [] None v idle) as (o & idle' & E & R & I). cbv [gerr] in E |- *. rewrite E.
   destruct (ve_command_get_loop 8 c idle addr v) as [r v']. cbn [fst snd] in *.
   destruct r as [val|e| |]; cbn [loop_rel] in R.
-  - subst o. eexists. eexists. split; reflexivity.
+  - subst o. eexists. eexists. split; [reflexivity|]. split; [reflexivity|]. intros _ _. apply I; discriminate.
   - destruct R as [(a & ->)|(-> & st & ->)].
-    + eexists. eexists. split; [reflexivity|]. cbn. eexists. reflexivity.
-    + destruct st as [a e']. eexists. eexists. split; [reflexivity|]. cbn. eexists. reflexivity.
-  - subst o. eexists. eexists. split; reflexivity.
-  - subst o. eexists. eexists. split; reflexivity.
+    + eexists. eexists. split; [reflexivity|]. split; [cbn; eexists; reflexivity|]. intros _ _. apply I; discriminate.
+    + destruct st as [a e']. eexists. eexists. split; [reflexivity|]. split; [cbn; eexists; reflexivity|].
+      intros _ _. apply I; discriminate.
+  - subst o. eexists. eexists. split; [reflexivity|]. split; [reflexivity|]. intros N; exfalso; apply N; reflexivity.
+  - subst o. eexists. eexists. split; [reflexivity|]. split; [reflexivity|]. intros _ N; exfalso; apply N; reflexivity.
 Qed.
 
 (* ---- vedirect.go: the typed calls ---- *)
@@ -618,8 +630,8 @@ Qed.
 (* what a typed call returns, read against the model's result for that call *)
 Definition call_rel {A} (inj : A -> value) (out : dout (A * gerr) * dst) (m : res value * vdstate) : Prop :=
   match fst m with
-  | Ok x => exists a, fst out = DVal (a, None) /\ x = inj a /\ d_vd (snd out) = snd m
-  | Err e => exists a, fst out = DVal (a, Some e) /\ d_vd (snd out) = snd m
+  | Ok x => exists a, fst out = DVal (a, None) /\ x = inj a /\ snd out = mkD (snd m) false
+  | Err e => exists a, fst out = DVal (a, Some e) /\ snd out = mkD (snd m) false
   | Panic => fst out = DPanic
   | OutOfFuel => fst out = DFuel
   end.
@@ -634,12 +646,12 @@ Proof.
   intros Ha. unfold get_uint, typed, call_rel.
   destruct (go_GetUint c addr (mkD v idle)) as [og sd] eqn:EG.
   unfold go_GetUint in EG. cbv zeta in EG. unfold bind at 1 in EG. unfold bind at 1 in EG.
-  destruct (go_VeCommandGet_spec c addr v idle Ha) as (o & idle' & E & R). rewrite E in EG.
+  destruct (go_VeCommandGet_spec c addr v idle Ha) as (o & idle' & E & R & I). rewrite E in EG.
   destruct (ve_command_get c idle addr v) as [r v']. cbn [fst snd map_res] in *.
   destruct r as [raw|e| |]; cbn [res_rel] in R.
-  - subst o. cbn [gerr_isnil negb] in EG. unfold bind at 1 in EG. rewrite go_littleEndianBytesToUint_spec in EG.
+  - subst o. assert (idle' = false) by (apply I; discriminate). subst idle'. cbn [gerr_isnil negb] in EG. unfold bind at 1 in EG. rewrite go_littleEndianBytesToUint_spec in EG.
     unfold ret at 1 in EG. finish_call EG.
-  - destruct R as (a & ->). cbn [gerr_isnil negb] in EG. finish_call EG.
+  - destruct R as (a & ->). assert (idle' = false) by (apply I; discriminate). subst idle'. cbn [gerr_isnil negb] in EG. finish_call EG.
   - subst o. injection EG as <- <-. reflexivity.
   - subst o. injection EG as <- <-. reflexivity.
 Qed.
@@ -650,14 +662,14 @@ Proof.
   intros Ha. unfold get_int, typed, call_rel.
   destruct (go_GetInt c addr (mkD v idle)) as [og sd] eqn:EG.
   unfold go_GetInt in EG. cbv zeta in EG. unfold bind at 1 in EG. unfold bind at 1 in EG.
-  destruct (go_VeCommandGet_spec c addr v idle Ha) as (o & idle' & E & R). rewrite E in EG.
+  destruct (go_VeCommandGet_spec c addr v idle Ha) as (o & idle' & E & R & I). rewrite E in EG.
   destruct (ve_command_get c idle addr v) as [r v']. cbn [fst snd map_res] in *.
   destruct r as [raw|e| |]; cbn [res_rel] in R.
-  - subst o. cbn [gerr_isnil negb] in EG. unfold bind at 1 in EG. rewrite go_littleEndianBytesToInt_spec in EG.
+  - subst o. assert (idle' = false) by (apply I; discriminate). subst idle'. cbn [gerr_isnil negb] in EG. unfold bind at 1 in EG. rewrite go_littleEndianBytesToInt_spec in EG.
     unfold int_result in EG. destruct (le_int raw) as [z|].
     + unfold ret at 1 in EG. finish_call EG.
     + unfold ret at 1 in EG. finish_call EG.
-  - destruct R as (a & ->). cbn [gerr_isnil negb] in EG. finish_call EG.
+  - destruct R as (a & ->). assert (idle' = false) by (apply I; discriminate). subst idle'. cbn [gerr_isnil negb] in EG. finish_call EG.
   - subst o. injection EG as <- <-. reflexivity.
   - subst o. injection EG as <- <-. reflexivity.
 Qed.
@@ -668,11 +680,11 @@ Proof.
   intros Ha. unfold get_string, typed, call_rel.
   destruct (go_GetString c addr (mkD v idle)) as [og sd] eqn:EG.
   unfold go_GetString in EG. cbv zeta in EG. unfold bind at 1 in EG. unfold bind at 1 in EG.
-  destruct (go_VeCommandGet_spec c addr v idle Ha) as (o & idle' & E & R). rewrite E in EG.
+  destruct (go_VeCommandGet_spec c addr v idle Ha) as (o & idle' & E & R & I). rewrite E in EG.
   destruct (ve_command_get c idle addr v) as [r v']. cbn [fst snd map_res] in *.
   destruct r as [raw|e| |]; cbn [res_rel] in R.
-  - subst o. cbn [gerr_isnil negb] in EG. finish_call EG.
-  - destruct R as (a & ->). cbn [gerr_isnil negb] in EG. finish_call EG.
+  - subst o. assert (idle' = false) by (apply I; discriminate). subst idle'. cbn [gerr_isnil negb] in EG. finish_call EG.
+  - destruct R as (a & ->). assert (idle' = false) by (apply I; discriminate). subst idle'. cbn [gerr_isnil negb] in EG. finish_call EG.
   - subst o. injection EG as <- <-. reflexivity.
   - subst o. injection EG as <- <-. reflexivity.
 Qed.
@@ -724,11 +736,11 @@ Theorem go_VeCommandGet_refines c addr v idle : 0 <= addr < 65536 ->
   call_rel VBytes (go_VeCommandGet c addr (mkD v idle)) (raw_get c idle addr v).
 Proof.
   intros Ha. unfold raw_get, call_rel.
-  destruct (go_VeCommandGet_spec c addr v idle Ha) as (o & idle' & E & R). rewrite E.
+  destruct (go_VeCommandGet_spec c addr v idle Ha) as (o & idle' & E & R & I). rewrite E.
   destruct (ve_command_get c idle addr v) as [r v']. cbn [fst snd map_res] in *.
   destruct r as [raw|e| |]; cbn [res_rel] in R.
-  - subst o. eexists. repeat split.
-  - destruct R as (a & ->). eexists. repeat split.
+  - subst o. assert (idle' = false) by (apply I; discriminate). subst idle'. eexists. repeat split.
+  - destruct R as (a & ->). assert (idle' = false) by (apply I; discriminate). subst idle'. eexists. repeat split.
   - exact R.
   - exact R.
 Qed.
